@@ -294,6 +294,7 @@ def check_cat_case(ctx, c):
             break
         for fam, tab in (('A', tabA), ('B', tabB)):
             case_n = dict(c, n=n, fam=fam)
+            ctx.about(case_n, 'gen_gal_cat')
             try:
                 out, keep = run_cat(tab, tracers, params, n, c['rsd'], c['ranks'])
             except Exception as e:  # the real code must not raise on any of these inputs
@@ -445,6 +446,7 @@ def check_fastconcat(ctx, nmax=12, tmax=16, dtypes=(np.int64, np.float64), only=
         c = dict(kind='fastconcat', dtype=dn, N1=N1, N2=N2, T=T)
         ctx.case(c, nontrivial=(N1 > 0 and N2 > 0))
         ctx.count('fastconcat:calls')
+        ctx.about(c, 'fast_concatenate')
         try:
             res = fc(a1, a2, T)
         except Exception as e:
@@ -706,6 +708,11 @@ class EventCtx:
     def count(self, key, n=1):
         self.emit(ev='count', key=key, n=int(n))
 
+    def about(self, case, what):
+        """written just before the real code is called: if the interpreter dies inside the call (a broken kernel
+        that writes outside its arrays), the parent knows the input it died on"""
+        self.emit(ev='about', case=case, what=what)
+
     def fail(self, what, case, observed, expected, key=None):
         self.failures.append(what)
         self.emit(ev='fail', what=what, case=case, observed=observed, expected=expected, key=key)
@@ -758,6 +765,7 @@ def in_child(ctx, mode, doc=None):
                        timeout=ctx.pick(1500, 3000))
     ended = False
     nfail = 0
+    pending = None          # the last call of the real code that was announced; cleared by any later event
     if os.path.exists(evpath):
         for line in open(evpath):
             try:
@@ -765,6 +773,10 @@ def in_child(ctx, mode, doc=None):
             except ValueError:
                 continue                      # a line cut short by a crash
             k = ev.pop('ev')
+            if k == 'about':
+                pending = ev
+                continue
+            pending = None
             if k == 'case':
                 ctx.case(ev['case'], nontrivial=ev['nontrivial'])
             elif k == 'count':
@@ -788,6 +800,13 @@ def in_child(ctx, mode, doc=None):
             ctx.count('child-crashed-after-failures')
             vcommon.log('[C10] the process running the real code ended with rc=%s after %d failure(s): %s'
                         % (p.returncode, nfail, tail[-300:]))
+        elif pending is not None and p.returncode < 0:
+            # killed by a signal INSIDE a call of the real code on an input from the property's domain: that input is
+            # the failing input (no catalogue at this thread count, hence not "identical for every thread count")
+            ctx.case(pending['case'], nontrivial=True)
+            ctx.fail('%s killed the interpreter (signal %d) on a valid input' % (pending['what'], -p.returncode), pending['case'],
+                     'process ended with rc=%s inside the call' % p.returncode, 'a result, identical for every thread count',
+                     key='crash:' + pending['what'])
         else:
             raise vcommon.Infra('the process running the real code ended with rc=%s before reporting a failure:\n%s'
                                 % (p.returncode, tail))
